@@ -6,6 +6,7 @@ import (
 	"strings"
 	"sync"
 	"sync/atomic"
+	"time"
 
 	"larking.io/larking"
 )
@@ -180,6 +181,10 @@ func c12RaceGen(o *out, r *rng, tier string) {
 			}(g)
 		}
 		for i, op := range ops {
+			// let the streams get going again (they were held during the comparison), then the operation runs among them
+			for r0, t0 := requests.Load(), time.Now(); requests.Load() < r0+6 && time.Since(t0) < 50*time.Millisecond; {
+				time.Sleep(200 * time.Microsecond)
+			}
 			e.apply(m, op) // with the streams running
 			// then, with the traffic held, the mux answers as a mux that went through the same operations alone: nothing a
 			// request resolved against an earlier state may outlive the publication of a later one
